@@ -15,8 +15,8 @@
      unit_exec s idx c ps u   := what unit u alone does with the command and what it answers
      bcast_effect c ps u      := state of unit u after the broadcast of the command
      silent o                 := o = OTrue \/ o = OValueError       (nothing is sent back)  *)
-From DS Require Import Base.Prelude Base.Bits Model.Utils Model.AslLine
-  Proofs.AslFrameProofs Proofs.AslLineProofs.
+From DS Require Import Base.Prelude Base.Bits Model.Utils Model.AslLine Proofs.AslFrameProofs.
+From DS Require Import Proofs.AslLineProofs Gen.AslTables Proofs.AslTablesTie.
 
 (* A command addressed to a unit on the line: only that unit's method is invoked, only its state
    is replaced, and the outcome is the answer of that unit. *)
@@ -120,6 +120,20 @@ Theorem C11_pinned_broadcast_slope_refuted :
   dispatch csem cdelay true false 1 [0; 0; 0] [252; 0; 2; 34; 7; 216] = ([1; 0; 0], OTrue).
 Proof. exact pinned_broadcast_slope_refuted. Qed.
 Print Assumptions C11_pinned_broadcast_slope_refuted.
+
+(* Tie to the source (regenerated on every run): the command table System.functions - codes in
+   source order with their handler names - and the protocol constants are the ones the model
+   was written for. *)
+Theorem C11_functions_tie : gen_functions = golden_functions /\ map fst gen_functions = codes.
+Proof. exact functions_tie. Qed.
+Print Assumptions C11_functions_tie.
+
+Theorem C11_constants_tie :
+  gen_ack = 6 /\ gen_nak = 21 /\ gen_switchall = 0 /\ gen_max_usd_per_line = 32 /\
+  is_header gen_start_fa = true /\ is_header gen_start_fc = true /\
+  gen_start_fa = AslEncoder.start_of false /\ gen_start_fc = AslEncoder.start_of true.
+Proof. exact constants_tie. Qed.
+Print Assumptions C11_constants_tie.
 
 (* non-vacuity: a line (1..3), a present and an absent address, a broadcast *)
 Example C11_ex_present : on_line 1 [0; 0; 0] 3 /\ ~ on_line 1 [0; 0; 0] 0 /\ ~ on_line 1 [0; 0; 0] 4.
